@@ -3,6 +3,7 @@ SPECIFICATION MCSpec
 CONSTANTS
   Algo = "asis"
   SeedCopyreg = "live"
+  InitGuard = FALSE
   Scns = {}
 PROPERTY Live_Terminates
 CHECK_DEADLOCK FALSE
